@@ -283,6 +283,13 @@ static OrcProgram *fixed_program(const std::string &which) {
   } else if (which == "addq") {
     p = orc_program_new_dss(8, 8, 8);
     orc_program_append_str(p, "addq", "d1", "s1", "s2");
+  } else if (which == "cmpltf") {
+    // float sources, integer mask result: a program whose only float operation is a comparison
+    p = orc_program_new_dss(4, 4, 4);
+    orc_program_append_str(p, "cmpltf", "d1", "s1", "s2");
+  } else if (which == "convfl") {
+    p = orc_program_new_ds(4, 4);
+    orc_program_append_str(p, "convfl", "d1", "s1", nullptr);
   } else if (which == "addf") {
     p = orc_program_new_dss(4, 4, 4);
     orc_program_append_str(p, "addf", "d1", "s1", "s2");
@@ -302,6 +309,29 @@ static OrcProgram *fixed_program(const std::string &which) {
     for (int i = 0; i < 8; i++) orc_program_append_2(p, i % 2 ? "xorw" : "addw", 0, t, t, ORC_VAR_P1 + i, 0);
     for (int i = 0; i < 4; i++) orc_program_append_2(p, i % 2 ? "orw" : "subw", 0, t, t, ORC_VAR_C1 + i, 0);
     orc_program_append_2(p, "copyw", 0, ORC_VAR_D1, t, 0, 0);
+  } else if (which == "allregs") {
+    // exhausts vector AND general-purpose registers at once: 4 destinations + 8 sources (all 12 array
+    // slots), a resampling load (one more gp register), 8 constants and 8 parameters as 32-bit operands and
+    // two of the constants again as 16-bit operands (18 loop invariants).  Must end in "register overflow"
+    // and fall back.  Compile-only here (resampling loads are never run by these workloads).
+    p = orc_program_new();
+    orc_program_add_destination(p, 4, "d1"); orc_program_add_destination(p, 4, "d2");
+    orc_program_add_destination(p, 4, "d3"); orc_program_add_destination(p, 2, "d4");
+    char nm[8];
+    for (int i = 1; i <= 8; i++) { snprintf(nm, sizeof nm, "s%d", i); orc_program_add_source(p, 4, nm); }
+    for (int i = 1; i <= 8; i++) { snprintf(nm, sizeof nm, "c%d", i); orc_program_add_constant(p, 4, 1000 * i + 7, nm); }
+    for (int i = 1; i <= 8; i++) { snprintf(nm, sizeof nm, "p%d", i); orc_program_add_parameter(p, 4, nm); }
+    orc_program_add_temporary(p, 4, "t1"); orc_program_add_temporary(p, 4, "t2"); orc_program_add_temporary(p, 2, "t3");
+    orc_program_append_str(p, "addl", "t1", "s1", "s2");
+    for (int i = 3; i <= 7; i++) { snprintf(nm, sizeof nm, "s%d", i); orc_program_append_str(p, "addl", "t1", "t1", nm); }
+    { const char *args[4] = {"t2", "s8", "p1", "p2"}; orc_program_append_str_n(p, "ldresnearl", 0, 4, args); }
+    for (int i = 1; i <= 8; i++) { snprintf(nm, sizeof nm, "c%d", i); orc_program_append_str(p, "addl", "t1", "t1", nm); }
+    for (int i = 3; i <= 8; i++) { snprintf(nm, sizeof nm, "p%d", i); orc_program_append_str(p, "xorl", "t1", "t1", nm); }
+    orc_program_append_str(p, "subl", "t2", "t2", "p1"); orc_program_append_str(p, "subl", "t2", "t2", "p2");
+    orc_program_append_str(p, "convlw", "t3", "t1", nullptr);
+    orc_program_append_str(p, "addw", "t3", "t3", "c1"); orc_program_append_str(p, "addw", "t3", "t3", "c2");
+    orc_program_append_str(p, "copyl", "d1", "t1", nullptr); orc_program_append_str(p, "addl", "d2", "t1", "t2");
+    orc_program_append_str(p, "subl", "d3", "t1", "t2"); orc_program_append_str(p, "copyw", "d4", "t3", nullptr);
   } else if (which == "accl") {
     p = orc_program_new_as(4, 4);
     orc_program_append_str(p, "accl", "a1", "s1", nullptr);
@@ -364,7 +394,7 @@ std::string describe_program(OrcProgram *p) {
 // ---------------------------------------------------------------------------
 // inputs / running
 // ---------------------------------------------------------------------------
-void make_inputs(const ProgMeta &meta, uint64_t dataseed, int nreq, RunData &d) {
+void make_inputs(const ProgMeta &meta, uint64_t dataseed, int nreq, RunData &d, bool emulation_only) {
   Rng r(mix2(dataseed, 0xda7a));
   int n = 1 + (int)r.below(70);  // always drawn, so that the data stream does not depend on nreq
   if (nreq > 0) n = nreq;
@@ -394,11 +424,28 @@ void make_inputs(const ProgMeta &meta, uint64_t dataseed, int nreq, RunData &d) 
       // 64-byte aligned base plus a seeded misalignment that is a multiple of the element size
       int unit = v.alignment > v.size ? v.alignment : v.size;
       int mis = (r.chance(1, 2) || unit >= 64) ? 0 : (int)(r.below(64 / unit) * unit);
+      // Never below the element size when native code may run: element alignment is a precondition of the
+      // native code (its head loop counts elements up to the next vector boundary, then uses aligned accesses).
+      // The emulator tolerates such arrays and reports them through its debug channel, so runs that are
+      // emulation by construction sometimes use them.
+      bool submis = emulation_only && v.size >= 2 && v.alignment <= v.size;
+      int submis_draw = (int)r.below(3);
+      if (submis && submis_draw == 0) mis += 1;
       d.arr[i].assign((size_t)stride * m + 64 + 128, 0);
       uintptr_t base = (uintptr_t)d.arr[i].data();
       d.off[i] = (int)((64 - (base % 64)) % 64) + mis;
       d.len[i] = (size_t)stride * m + 64;
       for (size_t k = 0; k < d.len[i]; k++) d.arr[i][d.off[i] + k] = (uint8_t)r.next();
+      // float programs: a quarter of the lanes hold denormals / zeros / tiny values instead of random bits
+      if (meta.has_float && (v.size == 4 || v.size == 8)) {
+        for (size_t k = 0; k + v.size <= d.len[i]; k += v.size) {
+          if (!r.chance(1, 4)) continue;
+          uint8_t *q = &d.arr[i][d.off[i] + k];
+          uint64_t bits = r.next();
+          if (v.size == 4) { uint32_t f = (uint32_t)bits & 0x807fffffu; if (r.chance(1, 4)) f &= 0x80000000u; memcpy(q, &f, 4); }
+          else { uint64_t f = bits & 0x800fffffffffffffULL; if (r.chance(1, 4)) f &= 0x8000000000000000ULL; memcpy(q, &f, 8); }
+        }
+      }
     } else if (v.vartype == ORC_VAR_TYPE_PARAM) {
       uint64_t val = r.next();
       if (v.shift_max > 0) val %= (uint64_t)v.shift_max;
@@ -424,7 +471,23 @@ void make_inputs(const ProgMeta &meta, uint64_t dataseed, int nreq, RunData &d) 
   d.exgarbage = r.next();
 }
 
-void run_with(OrcProgram *prog, OrcCode *code, const ProgMeta &meta, RunMode mode, RunData &d) {
+static void run_with_row(OrcProgram *prog, OrcCode *code, const ProgMeta &meta, RunMode mode, RunData &d, int row);
+void run_with(OrcProgram *prog, OrcCode *code, const ProgMeta &meta, RunMode mode, RunData &d) { run_with_row(prog, code, meta, mode, d, -1); }
+
+// Reference by emulation.  For 2-D programs the rows are emulated one call at a time (m = 1, array pointers
+// advanced by the harness, accumulators added up by the harness), so that the reference does not depend on how
+// the emulator itself walks rows.
+void reference_emulate(OrcProgram *twin, const ProgMeta &meta, RunData &d) {
+  if (!meta.is_2d || d.m <= 1) { run_with_row(twin, nullptr, meta, RUN_EMULATE, d, -1); return; }
+  unsigned total[4] = {0, 0, 0, 0};
+  for (int row = 0; row < d.m; row++) {
+    run_with_row(twin, nullptr, meta, RUN_EMULATE, d, row);
+    for (int k = 0; k < 4; k++) total[k] += (unsigned)d.acc[k];
+  }
+  for (int k = 0; k < 4; k++) d.acc[k] = (int)total[k];
+}
+
+static void run_with_row(OrcProgram *prog, OrcCode *code, const ProgMeta &meta, RunMode mode, RunData &d, int row) {
   OrcExecutor exs;
   OrcExecutor *ex = &exs;
   OrcExecutor *heap_ex = nullptr;
@@ -449,12 +512,12 @@ void run_with(OrcProgram *prog, OrcCode *code, const ProgMeta &meta, RunMode mod
     }
   }
   orc_executor_set_n(ex, d.n);
-  if (meta.is_2d) orc_executor_set_m(ex, d.m);
+  if (meta.is_2d) orc_executor_set_m(ex, row >= 0 ? 1 : d.m);
   for (int i = 0; i < ORC_N_VARIABLES; i++) {
     const VarMeta &v = meta.vars[i];
     if (v.size == 0) continue;
     if (v.vartype == ORC_VAR_TYPE_SRC || v.vartype == ORC_VAR_TYPE_DEST) {
-      ex->arrays[i] = d.ptr(i);
+      ex->arrays[i] = d.ptr(i) + (row >= 0 ? (size_t)row * d.stride[i] : 0);
       ex->params[i] = d.stride[i];
     } else if (v.vartype == ORC_VAR_TYPE_PARAM) {
       ex->params[i] = d.params[i];
